@@ -776,6 +776,8 @@ class HostInterp:
         if isinstance(fn, tuple) and fn and fn[0] == "method":
             m = self.methods[fn[1]]
             return self.call_function(m, _receiver(m, self.self_obj) + args, kwargs, {})
+        if fn is hasattr and len(args) == 2 and isinstance(args[0], Instance):
+            return args[1] in args[0].__dict__ or args[1] in args[0]._methods
         if fn is hash and len(args) == 1 and isinstance(args[0], Instance) and "__hash__" in args[0]._methods:
             return self.call_function(args[0]._methods["__hash__"], [args[0]], {}, {})
         if isinstance(fn, HostFn):
